@@ -32,6 +32,7 @@ import unyt.dimensions as dims
 from unyt._parsing import parse_unyt_expr
 from unyt._physical_ratios import speed_of_light_cm_per_s
 from unyt.dimensions import (
+    _intern_dimensions,
     angle,
     base_dimensions,
     current_mks,
@@ -510,7 +511,7 @@ class Unit:
         expr = str(self.expr)
         base_value = copy.deepcopy(self.base_value)
         base_offset = copy.deepcopy(self.base_offset)
-        dimensions = copy.deepcopy(self.dimensions)
+        dimensions = _intern_dimensions(copy.deepcopy(self.dimensions))
         if deep:
             registry = copy.deepcopy(self.registry)
         else:
@@ -519,6 +520,16 @@ class Unit:
 
     def __deepcopy__(self, memodict=None):
         return self.copy(deep=True)
+
+    def __setstate__(self, state):
+        # slot state as pickle and copy hand it over: (None, {slot: value}).
+        # Unpickled dimension symbols are equal but not identical to the
+        # symbols of unyt.dimensions, which the library compares with "is".
+        slots = state[1] if isinstance(state, tuple) else state
+        for name, value in slots.items():
+            if name == "dimensions":
+                value = _intern_dimensions(value)
+            setattr(self, name, value)
 
     #
     # End unit operations
